@@ -28,6 +28,7 @@ THRESH = st.one_of(
     st.integers(-40000, 130000),                # millidegrees
     st.sampled_from([0, 0, 1000, 100000, -1]),
     st.sampled_from(["", "N/A", "abc"]),        # non-numeric / empty
+    st.sampled_from(["eio", "enxio"]),          # file opens, read() fails
 )
 
 
@@ -40,6 +41,7 @@ def temp_sensor():
         max=THRESH, crit=THRESH,
         label=st.one_of(st.none(), st.sampled_from(["Core 0", "Package id 0",
                                                     "temp1", " spaced ", ""])),
+        label_err=st.sampled_from([None, None, None, "eio"]),   # label file opens, read() fails
     ))
 
 
@@ -48,6 +50,7 @@ def fan_sensor():
         input=st.one_of(st.integers(0, 20000), st.sampled_from([0, 1200]),
                         st.sampled_from(["missing", "eio", "eacces"])),
         label=st.one_of(st.none(), st.sampled_from(["cpu_fan", "fan1", ""])),
+        label_err=st.sampled_from([None, None, None, "eio"]),
     ))
 
 
@@ -88,6 +91,10 @@ def battery():
         status=st.one_of(st.none(), st.sampled_from(
             ["Discharging", "Charging", "Full", "Unknown", "Not charging"])),
         tte=st.one_of(st.none(), st.integers(-5, 1000)),
+        # attribute files that exist and open but whose read() fails (ENODEV
+        # while the battery is being re-detected): as good as absent
+        eio=st.sets(st.sampled_from(["now", "full", "power", "capacity", "status", "tte"]),
+                    max_size=2),
     ))
 
 
@@ -199,7 +206,11 @@ def build(case):
             put_reading(k, base + "_max", s["max"])
             put_reading(k, base + "_crit", s["crit"])
             if s["label"] is not None:
-                k.set_file(base + "_label", (s["label"] + "\n").encode())
+                if s.get("label_err"):
+                    k.set_file(base + "_label", simk.Unreadable(errno.EIO, "read"))
+                    s = dict(s, label="")
+                else:
+                    k.set_file(base + "_label", (s["label"] + "\n").encode())
             listed = (s["input"] != "missing" or s["max"] is not None
                       or s["crit"] is not None or s["label"] is not None)
             if listed:
@@ -217,7 +228,11 @@ def build(case):
             base = f"{d}/fan{n}"
             put_reading(k, base + "_input", s["input"])
             if s["label"] is not None:
-                k.set_file(base + "_label", (s["label"] + "\n").encode())
+                if s.get("label_err"):
+                    k.set_file(base + "_label", simk.Unreadable(errno.EIO, "read"))
+                    s = dict(s, label="")
+                else:
+                    k.set_file(base + "_label", (s["label"] + "\n").encode())
             # nested fans are only consulted when no flat chip lists fans
             visible = (not c["nested"]) or not flat_fans
             if readable_int(s["input"]) and visible:
@@ -255,19 +270,28 @@ def build(case):
             now_n = "energy_now" if fam in ("energy", "mixed") else "charge_now"
             full_n = "energy_full" if fam == "energy" else "charge_full"
             pow_n = "power_now" if fam == "energy" else "current_now"
-            for fn_, v in ((now_n, b["now"]), (full_n, b["full"]), (pow_n, b["power"]),
-                           ("capacity", b["capacity"]),
-                           ("time_to_empty_now", b["tte"])):
+            bad = set(b.get("eio", ()))
+            for key, fn_, v in (("now", now_n, b["now"]), ("full", full_n, b["full"]),
+                                ("power", pow_n, b["power"]),
+                                ("capacity", "capacity", b["capacity"]),
+                                ("tte", "time_to_empty_now", b["tte"])):
                 if v is not None:
-                    k.set_file(f"{d}/{fn_}", b"%d\n" % v)
+                    if key in bad:
+                        k.set_file(f"{d}/{fn_}", simk.Unreadable(errno.ENODEV, "read"))
+                    else:
+                        k.set_file(f"{d}/{fn_}", b"%d\n" % v)
             if b["status"] is not None:
-                k.set_file(f"{d}/status", (b["status"] + "\n").encode())
+                if "status" in bad:
+                    k.set_file(f"{d}/status", simk.Unreadable(errno.ENODEV, "read"))
+                else:
+                    k.set_file(f"{d}/status", (b["status"] + "\n").encode())
             k.set_file(f"{d}/type", b"Battery\n")
         if case["ac"] is not None:
             k.set_file(f"{ps}/{case['ac'][0]}/online", b"%d\n" % case["ac"][1])
         if case["other_supply"]:
             k.set_file(f"{ps}/ucsi-source-psy-USBC000:001/online", b"1\n")
-    bats = [b for b in case["bats"]] if case["ps_dir"] else []
+    bats = [dict(b, **{key: None for key in b.get("eio", ())}) for b in case["bats"]] \
+        if case["ps_dir"] else []
     if not bats:
         exp["battery"] = None
     else:
